@@ -24,6 +24,7 @@ EXPLANATION = (
     " Round 4 triage: (8) HIDDEN-DEP - a render() that can finish without rendering a child it consulted for the layout (Pile item with 0 rows, Columns column without width, trimmed-away Frame header/footer, Overlay over an empty bottom canvas) declares the dependency with set_depends() naming that child's source on the skipping path; (9) INV-RENDER - a render-path method that rewrites state render() reads (Scrollable's position clamped for the size at hand, Edit's view shift, ListBox's offset) reaches _invalidate() - directly, through all its render-path callers, or by the `if self.x != saved: self._invalidate()` idiom - so canvases cached for other sizes do not outlive the value they were rendered from."
     ' (10) ALIAS: the objects a canvas keeps by reference (rows handed to TextCanvas, the mapping of fill_attr_apply, the list of set_depends) are fresh at every call site or widget attributes whose every store is a private copy and that are never changed in place (before fix 45b9be8 AttrMap.set_attr_map / set_focus_map stored the dictionary of the caller: changing it later altered canvases already cached).'
     ' (11) ALIAS: an attribute a canvas class edits in place (coords, shortcuts, the cache tables) only ever holds an object of its own: no store of another canvas\'s attribute or of a bare parameter.'
+    ' (12) INV-EMIT: from a render-state write every path to a signal emission passes _invalidate() - a raising handler must not leave changed state behind unchanged canvases; (8) a hidden-child declaration made under a count test counts the child collection itself.'
 )
 NOT_DECIDED = (
     "That cached and fresh renderings are equal for all widget trees and histories (needs the value semantics of rendering); that the cascade reaches the right widgets "
@@ -446,6 +447,7 @@ def run(ctx: Ctx):
         canv.run_hidden_dep(p, "C06.8", floor=6),
         inv.run_inv_render_write(p, "C06.9", floor=40, exceptions=INV_RENDER_EXCEPTIONS),
         alias.run_alias(p, "C06.10", floor=12),
+        inv.run_inv_before_emit(p, "C06.12", floor=1),
         alias.run_inplace_own(p, "C06.11", ["urwid.canvas"], floor=6, exempt={"shards": "shared on purpose, copy-on-write decided path by path by FRESHLIST (C06.2c)"}),
     ]
     return out
@@ -454,6 +456,7 @@ def run(ctx: Ctx):
 from ..mutants import Mut  # noqa: E402
 
 MUTANTS = [
+    Mut("edit-text-emits-before-invalidating", "urwid/widget/edit.py", "Edit.set_edit_text", "        self.edit_pos = min(self.edit_pos, len(text))\n", "        self._edit_pos = min(self._edit_pos, len(text))\n        self.pref_col_maxcol = None, None\n", "INV-EMIT|widget.edit.Edit.set_edit_text|emission before invalidation of"),
     Mut("columns-hidden-test-counts-widths", "urwid/widget/columns.py", "Columns.render", "        if len(data) < len(self.contents):", "        if len(data) < len(widths):", "HIDDEN-DEP|widget.columns.Columns.render|hidden-child test does not count contents"),
     Mut("attrmap-stores-callers-dict", "urwid/widget/attr_map.py", "AttrMap.set_attr_map", "        self._attr_map = dict(attr_map)\n", "        self._attr_map = attr_map\n", "ALIAS|widget.attr_map.AttrMap.set_attr_map|self._attr_map stores a foreign object"),
     Mut("focusmap-stores-callers-dict", "urwid/widget/attr_map.py", "AttrMap.set_focus_map", "        self._focus_map = None if focus_map is None else dict(focus_map)\n", "        self._focus_map = focus_map\n", "ALIAS|widget.attr_map.AttrMap.set_focus_map|self._focus_map stores a foreign object"),
